@@ -30,7 +30,7 @@ open PlasVerif.Generated.Index
 abbrev Str := List Nat
 
 inductive Err where
-  | indexError | zeroDivisionError | attributeError
+  | indexError | zeroDivisionError | attributeError | keyError
   deriving DecidableEq, Repr
 
 /-! ## `index.invoke`: parsing the entry tokens -/
@@ -290,24 +290,44 @@ structure Group (α : Type) where
   items : List α
   deriving Repr
 
-/-- `batches[-1].append(item)` (`IndexError` on an empty list) -/
+/-- `bytitle[title].append(item)`: the group registered under `title` (`KeyError` when there is none).
+    `bytitle` maps a title to the batch that was created for it, i.e. to the (only) batch with that title. -/
+def appendTo {α} (title : Str) (x : α) : List (Group α) → Option (List (Group α))
+  | [] => none
+  | g :: gs =>
+    if g.title = title then some ({ g with items := g.items ++ [x] } :: gs)
+    else (appendTo title x gs).map (g :: ·)
+
+/-- the `for item in self` loop of `groups` (`current` starts as `''`, `bytitle` = the titles of `batches`):
+    a new batch is opened only when the title changes *and* no batch has that title yet -/
+def groupsGo {α} (tl : α → Str × Str) : List α → Str → List (Group α) → Except Err (List (Group α))
+  | [], _, bs => .ok bs
+  | x :: xs, current, bs =>
+    let (label, title) := tl x
+    let bs1 := if current ≠ title ∧ ¬ (bs.any fun g => g.title = title)
+               then bs ++ [{ title := title, label := label, items := [] }] else bs
+    match appendTo title x bs1 with
+    | none => .error .keyError
+    | some bs2 => groupsGo tl xs title bs2
+
+def groupItems {α} (tl : α → Str × Str) (items : List α) : Except Err (List (Group α)) :=
+  groupsGo tl items [] []
+
+/-- the code before the repair of the duplicate headings (`batches[-1].append(item)`, a new batch whenever
+    the title differs from the previous entry's) -/
 def appendLast {α} (x : α) : List (Group α) → Option (List (Group α))
   | [] => none
   | [g] => some [{ g with items := g.items ++ [x] }]
   | g :: gs => (appendLast x gs).map (g :: ·)
 
-/-- the `for item in self` loop of `groups` (`current` starts as `''`) -/
-def groupsGo {α} (tl : α → Str × Str) : List α → Str → List (Group α) → Except Err (List (Group α))
+def groupsGoAsIs {α} (tl : α → Str × Str) : List α → Str → List (Group α) → Except Err (List (Group α))
   | [], _, bs => .ok bs
   | x :: xs, current, bs =>
     let (label, title) := tl x
     let bs1 := if current ≠ title then bs ++ [{ title := title, label := label, items := [] }] else bs
     match appendLast x bs1 with
     | none => .error .indexError
-    | some bs2 => groupsGo tl xs title bs2
-
-def groupItems {α} (tl : α → Str × Str) (items : List α) : Except Err (List (Group α)) :=
-  groupsGo tl items [] []
+    | some bs2 => groupsGoAsIs tl xs title bs2
 
 /-- the "group entries into columns" loop; `output` is `done ++ [last]` -/
 def splitGo {α} (coltotal cols : Nat) : List (Nat × α) → Nat → List (List α) → List α → List (List α)
@@ -348,5 +368,30 @@ def groups (env : Env) (lines : List Line) (cols : Nat) : Except Err (List (Grou
   | .ok bs =>
     if cols = 0 ∧ !bs.isEmpty then .error .zeroDivisionError else
     .ok (bs.map fun g => { title := g.title, label := g.label, items := splitColumns (·.2) g.items cols })
+
+
+/-! ## the generated (HTML5) index: `Renderers/HTML5/Index.jinja2s` -/
+
+/-- the children of the `printindex` node, each with the lines of its descendants (what the template's
+    `recursive` loop walks below a top-level item) -/
+def topBlocks : List Line → List (Line × List Line)
+  | [] => []
+  | l :: ls =>
+    if l.path.length = 1 then (l, ls.takeWhile fun x => decide (x.path.length > 1)) :: topBlocks ls
+    else topBlocks ls
+
+/-- `{% for group in groups %} … {% for column in group %} … {% for item in column recursive %}`:
+    the headings with their columns of items, every item carrying its sub-tree -/
+def renderIndex (env : Env) (lines : List Line) (cols : Nat) :
+    Except Err (List (Str × List (List (Line × List Line)))) :=
+  match groupItems (fun b : Line × List Line => titleOf env (lineSk b.1)) (topBlocks lines) with
+  | .error e => .error e
+  | .ok bs =>
+    if cols = 0 ∧ !bs.isEmpty then .error .zeroDivisionError else
+    .ok (bs.map fun g => (g.title, splitColumns (fun b : Line × List Line => 1 + b.2.length) g.items cols))
+
+/-- the `<li>` elements of the generated index in document order: `<li>` key, pages, then `loop(item)` -/
+def htmlLines (r : List (Str × List (List (Line × List Line)))) : List Line :=
+  r.flatMap fun g => g.2.flatten.flatMap fun b => b.1 :: b.2
 
 end PlasVerif.Model.Index
